@@ -57,7 +57,7 @@ var c03Undecided = []TV{{K: "nil*Item"}, {K: "nilslice"}, {K: "nilmap"},
 var c03UniformOnly = []TV{{K: "string", S: "false"}, {K: "string", S: "true"}, {K: "string", S: "FALSE"}, {K: "*bool"}}
 
 // incmember / shortmember: the chain members are include tags / shorthand component tags themselves (a conditional include)
-var c03Placements = []string{"top", "nested", "for", "template", "ws", "comment", "adjacent", "beforefor", "table", "component", "slot", "layout", "incmember", "shortmember", "slotmember", "tvhtml"}
+var c03Placements = []string{"top", "nested", "for", "template", "ws", "comment", "adjacent", "beforefor", "table", "component", "slot", "layout", "incmember", "shortmember", "slotmember", "tvhtml", "elsefor"}
 
 type c03 struct{}
 
@@ -74,7 +74,7 @@ func init() {
 
 func (p *c03) ID() string { return "C03" }
 func (p *c03) Rule() string {
-	return "chain part: every shape v-if + k x v-else-if (k<=2 quick, k<=3 thorough) with/without v-else x every truth assignment x 16 placements (the chain members being include tags / shorthand component tags / <slot> elements of a component / <template v-html> tags themselves, top, nested, inside v-for with per-item conditions, on <template>, whitespace/comment between members, two adjacent chains, chain directly before a v-for sibling, inside table rows, inside an included component, inside slot content, inside a layout) x condition form (bare, negated) x a rotation through all Go value kinds realising each truth value; lazy part: every chain of 1-3 v-else-if (with/without v-else) x every position of the first truthy member that is followed by a v-else-if x later conditions that call a function returning an error / a counting function x {top, v-for, <template>, component}: the taken branch is rendered and the render does not fail; uniform part: every value of the truthy/falsy/undecided catalogue (all numeric widths, strings incl. \"0\" and \"false\", nil, missing, pointers, slices, maps, structs) x {v, o.v, v as the item of a loop whose variable shadows a truthy outer v, a variable named title / json like a built-in template function} read in v-if, v-else-if, v-show, :attr, :class object and their negations in v-if/v-else-if/v-show; non-trivial = every generated case (each has a condition decided by data); distinct by (shape, placement, form, values)"
+	return "chain part: every shape v-if + k x v-else-if (k<=2 quick, k<=3 thorough) with/without v-else x every truth assignment x 17 placements (the v-else-if / v-else members being loops themselves, the chain members being include tags / shorthand component tags / <slot> elements of a component / <template v-html> tags themselves, top, nested, inside v-for with per-item conditions, on <template>, whitespace/comment between members, two adjacent chains, chain directly before a v-for sibling, inside table rows, inside an included component, inside slot content, inside a layout) x condition form (bare, negated) x a rotation through all Go value kinds realising each truth value; lazy part: every chain of 1-3 v-else-if (with/without v-else) x every position of the first truthy member that is followed by a v-else-if x later conditions that call a function returning an error / a counting function x {top, v-for, <template>, component}: the taken branch is rendered and the render does not fail; uniform part: every value of the truthy/falsy/undecided catalogue (all numeric widths, strings incl. \"0\" and \"false\", nil, missing, pointers, slices, maps, structs) x {v, o.v, v as the item of a loop whose variable shadows a truthy outer v, a variable named title / json like a built-in template function, a struct field by JSON tag, a dashed map key, a numeric dotted step} read in v-if, v-else-if, v-show, :attr, :class object and their negations in v-if/v-else-if/v-show; non-trivial = every generated case (each has a condition decided by data); distinct by (shape, placement, form, values)"
 }
 
 func (p *c03) maxK(ctx core.Ctx) int { return ctx.Pick(2, 3) }
@@ -102,7 +102,7 @@ func (p *c03) rot(ctx core.Ctx) int { return ctx.Pick(8, len(c03Truthy)) }
 
 func (p *c03) Plan(ctx core.Ctx) int {
 	nChain := len(p.shapes(ctx)) * len(c03Placements) * 2 * p.rot(ctx)
-	nUni := (len(c03Falsy) + len(c03Truthy) + len(c03Undecided) + len(c03UniformOnly)) * 5
+	nUni := (len(c03Falsy) + len(c03Truthy) + len(c03Undecided) + len(c03UniformOnly)) * 8
 	return nChain + nUni + len(c03LazyCases())
 }
 
@@ -110,17 +110,19 @@ func (p *c03) Gen(ctx core.Ctx, i int) any {
 	shapes := p.shapes(ctx)
 	rot := p.rot(ctx)
 	nChain := len(shapes) * len(c03Placements) * 2 * rot
-	if nUni := (len(c03Falsy) + len(c03Truthy) + len(c03Undecided) + len(c03UniformOnly)) * 5; i >= nChain+nUni {
+	if nUni := (len(c03Falsy) + len(c03Truthy) + len(c03Undecided) + len(c03UniformOnly)) * 8; i >= nChain+nUni {
 		l := c03LazyCases()[i-nChain-nUni]
 		return c03Case{Part: "lazy", Lazy: &l}
 	}
 	if i >= nChain {
 		j := i - nChain
 		all := append(append(append(append([]TV{}, c03Falsy...), c03Truthy...), c03Undecided...), c03UniformOnly...)
-		v := all[j/5]
+		v := all[j/8]
 		// shadow: the value is the item of a loop whose variable shadows a truthy outer variable of the same name;
 		// title, json: the variable is named like a built-in template function
-		path := []string{"v", "o.v", "shadow", "title", "json"}[j%5]
+		// tag: a struct field addressed by its JSON tag; dash: a map key with a dash; idx: a numeric dotted step -
+		// paths that only the variable stack resolves, not the expression engine
+		path := []string{"v", "o.v", "shadow", "title", "json", "tag", "dash", "idx"}[j%8]
 		return c03Case{Part: "uniform", Val: &v, Path: path}
 	}
 	r := i % rot
@@ -239,7 +241,7 @@ func (p *c03) Exec(ctx core.Ctx, cc any) core.Obs {
 	withComponents := false
 	tag := "p"
 	switch c.Placement {
-	case "top", "nested", "ws", "comment", "template", "beforefor", "table", "memberfor", "component", "slot", "layout", "incmember", "shortmember", "slotmember", "tvhtml":
+	case "top", "nested", "ws", "comment", "template", "beforefor", "table", "memberfor", "component", "slot", "layout", "incmember", "shortmember", "slotmember", "tvhtml", "elsefor":
 		c03Data(c.Vals, "c", data)
 		sep := ""
 		switch c.Placement {
@@ -253,6 +255,15 @@ func (p *c03) Exec(ctx core.Ctx, cc any) core.Obs {
 		}
 		chain := c03Chain(c, "b", "c", tag, sep, c.Placement == "template")
 		exp, _ := c03Expect(c, c.Vals, "b", c.Placement == "template")
+		if c.Placement == "elsefor" {
+			// the v-else-if / v-else members are loops themselves: the chosen one renders one instance per item
+			data["two"] = []any{1, 2}
+			re := regexp.MustCompile(`<p (v-else-if="[^"]*"|v-else) data-m="([^"]*)">`)
+			chain = re.ReplaceAllString(chain, `<p $1 v-for="n in two" data-m="$2">`)
+			if len(exp) == 1 && exp[0] != "b0" {
+				exp = []string{exp[0], exp[0]}
+			}
+		}
 		if c.Placement == "memberfor" {
 			// every member is also looped (two instances of the chosen branch)
 			data["two"] = []any{1, 2}
@@ -502,6 +513,32 @@ func (p *c03) execUniform(c c03Case) core.Obs {
 			m["v"] = v.Go()
 		}
 		data["o"] = m
+	} else if c.Path == "tag" {
+		it := Item{}
+		switch v.K {
+		case "bool":
+			it.On, e = v.B, "st.on"
+		case "int":
+			it.Count, e = int(v.I), "st.count"
+		case "string":
+			it.Title, e = v.S, "st.title"
+		default:
+			o.Cell("skipped/kind-has-no-struct-field")
+			return o
+		}
+		data["st"] = []Item{it}[0]
+	} else if c.Path == "dash" || c.Path == "idx" {
+		if v.K == "missing" {
+			o.Cell("skipped/missing-in-container")
+			return o
+		}
+		if c.Path == "dash" {
+			data["o"] = map[string]any{"is-v": v.Go()}
+			e = "o.is-v"
+		} else {
+			data["l"] = []any{v.Go()}
+			e = "l.0"
+		}
 	} else if c.Path == "title" || c.Path == "json" {
 		if v.K == "missing" {
 			// without a variable of that name the name IS the function: not an undefined variable
